@@ -157,7 +157,7 @@ pub fn scenario(name: &str) -> Option<Scen> {
         "reg" => Scen { name: "reg", registered: vec![1, 2], ..base },
         "expired" => Scen { name: "expired", cfg: Cfg { slots: 100, duration: 3, delta: 50 }, registered: vec![1], expired: true, ..base },
         "noslots" => Scen { name: "noslots", cfg: Cfg { slots: 1, duration: 500, delta: 20 }, registered: vec![1], no_slots: true, ..base },
-        "triggered" => Scen { name: "triggered", registered: vec![1], triggered: true, ..base },
+        "triggered" => Scen { name: "triggered", registered: vec![1, 2], triggered: true, ..base },
         "down" => Scen { name: "down", registered: vec![1, 2], reachable: false, ..base },
         "maxslots" => Scen { name: "maxslots", cfg: Cfg { slots: 4_000_000_000, duration: 500, delta: 20 }, registered: vec![1], max_slots: true, ..base },
         _ => return None,
